@@ -54,12 +54,20 @@ async fn ttl_async(ctx: &mut Ctx) {
     if v6 {
         ctx.count("ipv6_runs");
     }
+    // a quarter of the runs: the victim retransmits (retries 2-3, request timeout 1 s) and its sessions live
+    // shorter than a request timeout, while peers sometimes answer only after the first retransmission
+    let retx_mode = ctx.tape.choose(4) == 0;
+    let session_timeout_ms = if retx_mode { *ctx.tape.pick(&[300u64, 700]) } else { session_timeout_ms };
     for i in 0..=np {
         let mut c = NodeCfg::new(8 + i);
         c.v6 = v6;
         c.request_timeout_ms = 500;
         if i == 0 {
             c.session_timeout_ms = session_timeout_ms;
+            if retx_mode {
+                c.request_timeout_ms = 1000;
+                c.request_retries = 2 + ctx.tape.choose(2) as u8;
+            }
         }
         w.add_node(c).await;
     }
@@ -125,7 +133,9 @@ async fn ttl_async(ctx: &mut Ctx) {
                 let wi = w.tap(ctx, from, &out);
                 if from == 0 {
                     if let Some(d) = w.wire[wi].dec.clone() {
-                        if matches!(d.kind, PacketKind::Message { .. }) {
+                        // (a byte-identical retransmission is not a new encryption: no use of the session)
+                        let retransmission = w.wire[..wi].iter().any(|r| r.from == 0 && r.bytes == w.wire[wi].bytes);
+                        if matches!(d.kind, PacketKind::Message { .. }) && !retransmission {
                             if let Some(s) = session_of(&w, 0, &d, true) {
                                 use_session(ctx, &w, &mut last_used, &dead_before, s, session_timeout_ms, "encrypted a message with");
                             } else {
@@ -196,6 +206,9 @@ async fn ttl_async(ctx: &mut Ctx) {
                         let delay = if node == 0 && ctx.tape.choose(5) == 0 {
                             ctx.fault("slow_application_response");
                             *ctx.tape.pick(&[session_timeout_ms / 2, session_timeout_ms.saturating_sub(300), session_timeout_ms + 300, session_timeout_ms * 2])
+                        } else if node != 0 && retx_mode && ctx.tape.choose(3) == 0 {
+                            ctx.fault("peer_answers_after_retransmission");
+                            1300
                         } else {
                             0
                         };
